@@ -26,6 +26,7 @@ def tlcpParams : Params :=
     clientEcdheGuard := Facts.tlcp.negHelloEcdheGuard,
     encCertNeedsSig := Facts.tlcp.negEncCertNeedsSigCert,
     resumeHonoursPolicy := Facts.tlcp.negResumePolicyGuards && Facts.tlcp.negResumeReprocessesCerts,
+    resumeSuiteGuards := Facts.tlcp.negResumeSuiteGuards,
     cloneMissing := Facts.tlcp.cloneMissing }
 
 def dtlcpParams : Params :=
@@ -39,6 +40,7 @@ def dtlcpParams : Params :=
     clientEcdheGuard := Facts.dtlcp.negHelloEcdheGuard,
     encCertNeedsSig := Facts.dtlcp.negEncCertNeedsSigCert,
     resumeHonoursPolicy := Facts.dtlcp.negResumePolicyGuards && Facts.dtlcp.negResumeReprocessesCerts,
+    resumeSuiteGuards := Facts.dtlcp.negResumeSuiteGuards,
     cloneMissing := Facts.dtlcp.cloneMissing }
 
 def factsP : Stack → Params
